@@ -107,6 +107,9 @@ func plan(tier string, seed int64) []run.Batch {
 		for i := 0; i < 3; i++ {
 			bs = append(bs, run.Batch{Kind: "scale", Seed: seed*100019 + int64(len(bs)), N: 1, TimeoutS: 300, Params: map[string]string{"slice": fmt.Sprint(i), "of": "3", "what": "auths"}})
 		}
+		for i := 0; i < 2; i++ {
+			bs = append(bs, run.Batch{Kind: "scale", Seed: seed*100019 + int64(len(bs)), N: 1, TimeoutS: 300, Params: map[string]string{"slice": fmt.Sprint(i), "of": "2", "what": "fleet"}})
+		}
 	} else {
 		add("seq", 4, 16) // 64 sequences
 		add("keyreuse", 4, 2)
@@ -114,6 +117,7 @@ func plan(tier string, seed int64) []run.Batch {
 		add("torn", 4, 2)
 		add("scale", 1, 1)
 		bs = append(bs, run.Batch{Kind: "scale", Seed: seed*100019 + int64(len(bs)), N: 1, TimeoutS: 300, Params: map[string]string{"slice": "0", "of": "1", "what": "auths"}})
+		bs = append(bs, run.Batch{Kind: "scale", Seed: seed*100019 + int64(len(bs)), N: 1, TimeoutS: 300, Params: map[string]string{"slice": "0", "of": "1", "what": "fleet"}})
 	}
 	return bs
 }
@@ -141,6 +145,8 @@ func post(c *ev.Check, outs []*run.Outcome) {
 	// live slot of the one surviving device (8064)
 	c.Require("max.auth_records", 443)
 	c.Require("max.report_records_one_survivor", 9000)
+	c.Require("max.authorized_at_once", 1001)
+	c.Require("scale.fleet_conflicts", 1)
 	c.SetExtra("scale", map[string]int64{"max_auth_records": c.Counter("max.auth_records"), "max_report_records": c.Counter("max.report_records")})
 	for _, s := range badSigners {
 		c.Require("badsig."+s, 1)
@@ -2660,6 +2666,215 @@ func runScaleReports(b run.Batch, r *ev.Result, rng *rand.Rand, n int, survivors
 	return !w.poisoned
 }
 
+// runScaleFleet: more than 1000 devices authorized at the same time (8 workers through the JSON endpoint, bulk
+// checked by status only, no heavy snapshots: the windows alone are about 350 MB), then conflicts against
+// existing ids: each bans exactly its id, is persisted as evidence and holds after a restart; new devices are
+// still accepted.
+func runScaleFleet(b run.Batch, r *ev.Result, rng *rand.Rand, n int) bool {
+	w := newWorld(b, r, rng, 6000+n)
+	if w == nil {
+		return false
+	}
+	defer w.finish()
+	total := 1010 + rng.Intn(90)
+	w.op("scale: authorizing %d devices with 8 workers", total)
+	auths := make([]refenc.Auth, total)
+	keys := make([]refenc.Key, total)
+	used := map[uint32]bool{}
+	for i := range auths {
+		id := uint32(rng.Intn(1 << 24))
+		for used[id] {
+			id++
+		}
+		used[id] = true
+		keys[i] = refenc.GenKey(rng)
+		auths[i] = w.mkAuth(id, keys[i].Pub, true)
+	}
+	sts := make([]int, total)
+	errs := make([]error, total)
+	var wg sync.WaitGroup
+	for g := 0; g < 8; g++ {
+		wg.Add(1)
+		go func(g int) {
+			defer wg.Done()
+			for i := g; i < total; i += 8 {
+				sts[i], _, errs[i] = w.Authorize(auths[i])
+			}
+		}(g)
+	}
+	wg.Wait()
+	refused := 0
+	for i := range auths {
+		if errs[i] != nil {
+			r.Inconc("scale fleet: authorize request failed: " + errs[i].Error())
+			w.stop = true
+			return true
+		}
+		if sts[i] != 200 {
+			refused++
+			if refused == 1 {
+				r.Violationf("valid-authorization-refused", w.replay(), "authorization number %d of %d valid authorizations for unused ids with fresh keys (id %d) was answered %d", i+1, total, auths[i].ID, sts[i])
+			}
+		}
+	}
+	snap := w.S.VerifSnapshot(false)
+	r.Max("max.authorized_at_once", int64(len(snap.Equipment)))
+	r.Count("scale.fleet_scenarios", 1)
+	r.Nontrivial(fmt.Sprintf("scale/fleet/%d", total/50))
+	if len(snap.Equipment) != total-refused || len(snap.ShortIDs) != total-refused || len(snap.Bans) != 0 {
+		r.Violationf("state-has-extra-entries:scale", w.replay(), "after %d accepted authorizations the server has equipment=%d pkindex=%d bans=%d", total-refused, len(snap.Equipment), len(snap.ShortIDs), len(snap.Bans))
+	}
+	// the file holds exactly the accepted records (order of concurrent appends is free)
+	recordsOf := func(bts []byte) map[string]int {
+		m := map[string]int{}
+		for i := 0; i+148 <= len(bts); i += 148 {
+			m[string(bts[i:i+148])]++
+		}
+		if len(bts)%148 != 0 {
+			m["<partial>"]++
+		}
+		return m
+	}
+	want := map[string]int{}
+	for i, a := range auths {
+		if sts[i] == 200 {
+			want[string(a.Bytes())]++
+		}
+	}
+	fileOK := func(what string) {
+		got := recordsOf(w.ReadFile("equipment-authorizations.dat"))
+		bad := len(got) != len(want)
+		for k, v := range want {
+			if got[k] != v {
+				bad = true
+			}
+		}
+		if bad {
+			r.Violationf("authorization-file-differs:scale", w.replay(), "%s: equipment-authorizations.dat holds %d distinct records, the reference has %d", what, len(got), len(want))
+		}
+	}
+	fileOK("after the bulk authorizations")
+	if ok, msg := w.invariants(); !ok {
+		r.Violationf("consistency-check-failed:scale", w.replay(), "CheckInvariants panics with %d devices: %s", total, msg)
+		w.poisoned, w.stop = true, true
+		return false
+	}
+	// conflicts against existing ids on the full server
+	type banned struct {
+		i  int
+		ev refenc.Auth
+	}
+	var bans []banned
+	checkBans := func(what string) {
+		s2 := w.S.VerifSnapshot(false)
+		st, eq, err := w.Equipment()
+		for _, bn := range bans {
+			id := auths[bn.i].ID
+			_, inEq := s2.Equipment[id]
+			if !s2.Bans[id] || inEq {
+				r.Violationf("banned-id:not-banned-on-full-server", w.replay(), "%s: id %d received a conflicting authorization while %d devices were authorized: banned=%v authorized=%v", what, id, total, s2.Bans[id], inEq)
+			}
+			if err == nil && st == 200 {
+				if _, listed := eq[id]; listed {
+					r.Violationf("equipment-endpoint:lists-unauthorized-id", w.replay(), "%s: GET /equipment lists the banned id %d", what, id)
+				}
+			}
+			if _, refusedSync, e := w.Sync(id); e == nil && !refusedSync {
+				r.Violationf("sync-serves-unauthorized-id", w.replay(), "%s: sync for the banned id %d was answered", what, id)
+			}
+			rep := refenc.Report{ID: id, Slot: w.usableSlot(), Power: 77}.Signed(keys[bn.i].Priv)
+			logBefore := len(w.ReadFile("equipment-reports.dat"))
+			w.Inject(rep.Bytes())
+			if len(w.ReadFile("equipment-reports.dat")) != logBefore {
+				r.Violationf("report-of-unauthorized-id-logged", w.replay(), "%s: a report of the banned id %d was accepted", what, id)
+			}
+		}
+		// a handful of untouched devices: still authorized, findable by key, served by sync
+		for j := 0; j < 4; j++ {
+			i := rng.Intn(total)
+			skip := sts[i] != 200
+			for _, bn := range bans {
+				if bn.i == i {
+					skip = true
+				}
+			}
+			if skip {
+				continue
+			}
+			a := auths[i]
+			if got, ok := s2.Equipment[a.ID]; !ok || !authBytesEq(drv.RefAuth(got), a) || s2.ShortIDs[a.Pub] != a.ID {
+				r.Violationf("other-device-damaged:authorization-missing", w.replay(), "%s: untouched device %d lost its authorization or index entry", what, a.ID)
+			}
+			if stR, _, e := w.Get("/api/v1/recent-reports?publicKey=" + hex.EncodeToString(a.Pub[:])); e == nil && stR != 200 {
+				r.Violationf("other-device-damaged:not-findable-by-public-key", w.replay(), "%s: recent-reports for the key of untouched device %d answers %d", what, a.ID, stR)
+			}
+			if _, refusedSync, e := w.Sync(a.ID); e == nil && refusedSync {
+				r.Violationf("sync-refuses-authorized-device", w.replay(), "%s: sync for untouched device %d was refused", what, a.ID)
+			}
+			r.Count("scale.fleet_devices_compared", 1)
+		}
+		if len(s2.Bans) != len(bans) {
+			r.Violationf("state-has-extra-entries:scale", w.replay(), "%s: %d ids were banned, the server's ban set has %d", what, len(bans), len(s2.Bans))
+		}
+		r.Eval(1)
+	}
+	for j := 0; j < 3 && !w.stop; j++ {
+		i := rng.Intn(total)
+		dup := sts[i] != 200
+		for _, bn := range bans {
+			if bn.i == i {
+				dup = true
+			}
+		}
+		if dup {
+			continue
+		}
+		c := auths[i]
+		c.Debt ^= 1 << uint(rng.Intn(64))
+		c = c.Signed(w.GCA.Priv)
+		w.op("authorize conflict on the full server id=%d auth=%x", c.ID, c.Bytes())
+		st, ok := w.authorize(c)
+		if !ok {
+			return true
+		}
+		if st == 200 {
+			r.Violationf("conflict-answered-200", w.replay(), "a conflicting authorization for id %d was answered 200", c.ID)
+		}
+		bans = append(bans, banned{i, c})
+		want[string(c.Bytes())]++
+		r.Count("obs.ban", 1)
+		r.Count("scale.fleet_conflicts", 1)
+		checkBans("after the conflict")
+		fileOK("after the conflict")
+		w.checkpoint()
+	}
+	// a new device is still accepted after the bans
+	kN := refenc.GenKey(rng)
+	aN := w.mkAuth(uint32(1<<25+rng.Intn(1000)), kN.Pub, true)
+	w.op("authorize new on the full server id=%d", aN.ID)
+	if st, ok := w.authorize(aN); ok && st == 200 {
+		want[string(aN.Bytes())]++
+	}
+	// restart: bans hold
+	w.op("restart with %d devices", total)
+	if err := w.Restart(); err != nil {
+		r.Violationf("restart-failed", w.replay(), "the server with %d devices does not start again: %v", total, err)
+		w.stop = true
+		return true
+	}
+	r.Count("obs.restart", 1)
+	checkBans("after the restart")
+	fileOK("after the restart")
+	if ok, msg := w.invariants(); !ok {
+		r.Violationf("consistency-check-failed:scale", w.replay(), "CheckInvariants panics after the restart: %s", msg)
+		w.poisoned = true
+		return false
+	}
+	w.checkpoint()
+	w.stop = true
+	return true
+}
+
 // ---------------------------------------------------------------- child
 
 func child(b run.Batch, r *ev.Result) {
@@ -2682,6 +2897,8 @@ func child(b run.Batch, r *ev.Result) {
 			switch {
 			case b.P("what") == "auths":
 				ok = runScaleAuths(b, r, rng, n)
+			case b.P("what") == "fleet":
+				ok = runScaleFleet(b, r, rng, n)
 			default:
 				surv := 1
 				if b.Tier == "thorough" && slice%2 == 1 {
